@@ -92,8 +92,9 @@ ElemKey(e) == LET P == {<<t, j>> \in Threads \X (1..8) : j <= Len(Prog[t]) /\ Pr
               ELSE LET Q == {j \in 1..Len(InitOps) : InitOps[j].v = e} IN InitOps[CHOOSE j \in Q : TRUE].k
 \* expand a sweep into one operation per key (each may take effect at its own instant of the sweep)
 Expand(h) == IF h.op.m # "sweep" THEN {h}
-             ELSE {[t |-> h.t, i |-> h.i, call |-> h.call, ret |-> h.ret, op |-> [m |-> "sweepkey", k |-> k, v |-> 0],
-                    res |-> LET es == {e \in h.res : ElemKey(e) = k} IN IF es = {} THEN <<0, FALSE>> ELSE <<CHOOSE e \in es : TRUE, TRUE>>] : k \in Keys}
+             ELSE {[t |-> h.t, i |-> h.i, call |-> h.call, ret |-> h.ret, op |-> [m |-> "sweepelem", k |-> ElemKey(e), v |-> e], res |-> <<e, TRUE>>] : e \in h.res}
+                  \cup {[t |-> h.t, i |-> h.i, call |-> h.call, ret |-> h.ret, op |-> [m |-> "sweepkey", k |-> k, v |-> 0], res |-> <<0, FALSE>>]
+                         : k \in {x \in Keys : \A e \in h.res : ElemKey(e) # x}}
 Ops(H) == UNION {Expand(h) : h \in H}
 C14_Linearizable == AllDone => Linearizable(Ops(hist))
 \* the sweep only ever reports expired elements to the expiry callback
